@@ -513,6 +513,59 @@ def read_generator_folder(gen_dir, start):
 
 
 # ------------------------------------------------------------------------------------------------
+# simulation numbers run by the simulation manager (batches of five)
+# ------------------------------------------------------------------------------------------------
+def real_batches(n):
+    from simulation.simulation_helpers import batch_simulations
+    return [int(x) for x in batch_simulations(n)]
+
+
+def run_manager_numbers(n, debug):
+    """the REAL SimulationManager.run_simulations (hence the real batch_simulations and the real
+    _run_simulations_debug / _run_simulation_multiprocessing loops, incl. mp.Manager and one mp.Pool per
+    simulation in the normal mode) on a manager object created without __init__; only the collaborators
+    are duck-typed: _setup_programs records the simulation number it is asked for and returns no
+    program tuples, the summary manager does nothing.  Returns the numbers in the order they were run."""
+    from simulation.simulation_manager import SimulationManager
+    import constants.param_default_const as _pdc
+
+    class _NoSummary:
+        def gen_summary_outputs(self, *a, **k):
+            return None
+
+    mgr = object.__new__(SimulationManager)
+    numbers = []
+
+    def setup(simulation_number, lock=None):
+        numbers.append(int(simulation_number))
+        return []
+
+    mgr.simulation_count = n
+    mgr.sim_params = {_pdc.Sim_Setting_Params.PROCESS: 2}
+    mgr.programs = {"P_a": {}, "P_b": {}}
+    mgr.keep_all_program_outputs = True
+    mgr.summary_stats_manager = _NoSummary()
+    mgr._setup_programs = setup
+    with contextlib.redirect_stdout(io.StringIO()):
+        mgr.run_simulations(debug)
+    return numbers
+
+
+def output_scenario_fingerprint(rows):
+    """(site, date began, true rate) multiset of one <program>_<sim>_emissions_summary.csv"""
+    return sorted((str(r["Site ID"]), r["Date Began"][:10], float(r['"True" Rate (g/s)'])) for r in rows)
+
+
+def pickled_scenario_fingerprint(rows, start):
+    """the same multiset from the pickled scenario rows of read_generator_folder"""
+    out = []
+    for (path, _, _, ems) in rows:
+        for (off, _, _, rate) in ems:
+            out.append((str(path[0]), (start + timedelta(days=off)).isoformat(), float(rate)))
+    return sorted(out)
+
+
+# ------------------------------------------------------------------------------------------------
 # the same case ALONE in a fresh process (reference for same-process history runs)
 # ------------------------------------------------------------------------------------------------
 def rates_of_folder(folder, np_seed, k):
